@@ -78,6 +78,8 @@ func (h *Handler6) StartRADVS(managed bool, other bool, prefixes []packet.Prefix
 
 func (h *Handler6) startRADVS(managed bool, other bool, prefixes []packet.PrefixInformation, rdnss *packet.RecursiveDNSServer) (radvs *RADVS, err error) {
 	radvs = &RADVS{stopChannel: make(chan bool, 1)}
+	h.Lock() // router table and router fields are shared with ProcessPacket and the spoof loops
+	defer h.Unlock()
 	radvs.Router, _ = h.findOrCreateRouter(h.session.NICInfo.HostAddr4.MAC, h.session.NICInfo.HostLLA.Addr())
 	radvs.Router.enableRADVS = true
 	radvs.Router.ManagedFlag = managed
